@@ -52,6 +52,7 @@ var c19Templates = []c19Template{
 	{"refers-to-template-doc", map[string]any{"app": 1, "image": map[string]any{"$replace": map[string]any{"$match": map[string]any{"tid": 1}, "$path": "image"}}, "o": map[string]any{"$merge": []any{map[string]any{"tid": 1}, "opts"}, "y": 2}}, false},
 	{"template-doc-gains-required", map[string]any{"$match": map[string]any{"tid": 1}, "image": "$required", "opts": map[string]any{"x": 2}}, false},
 	{"empty-document", nil, false},
+	{"merge-host-with-empty-children", map[string]any{"a": 1, "h": map[string]any{"$merge": "t", "e": map[string]any{}, "l": []any{}}, "t": map[string]any{"e": map[string]any{"x": 1}, "l": []any{2}, "n": map[string]any{}}}, false},
 }
 
 // operations: 0..3 = merge template k of the chosen set, 4 = MergeFileLayers,
@@ -454,16 +455,17 @@ func buildC19(tier string) *core.Plan {
 			sets = append(sets, []int{22, 23, 24, general[a]})
 			for b := a + 1; b < n; b++ {
 				sets = append(sets, []int{25, 25, general[a], general[b]})
+				sets = append(sets, []int{26, 26, general[a], general[b]})
 			}
 		}
 	} else {
-		sets = [][]int{{0, 1, 6, 9}, {2, 3, 4, 10}, {5, 7, 8, 11}, {0, 1, 2, 8}, {0, 11, 13, 9}, {12, 14, 1, 6}, {0, 21, 13, 14}, {15, 16, 17, 13}, {18, 19, 0, 9}, {20, 0, 6, 13}, {22, 23, 24, 0}, {25, 0, 1, 6}}
+		sets = [][]int{{0, 1, 6, 9}, {2, 3, 4, 10}, {5, 7, 8, 11}, {0, 1, 2, 8}, {0, 11, 13, 9}, {12, 14, 1, 6}, {0, 21, 13, 14}, {15, 16, 17, 13}, {18, 19, 0, 9}, {20, 0, 6, 13}, {22, 23, 24, 0}, {25, 0, 1, 6}, {26, 0, 6, 9}}
 	}
 	statelessSets := sets
 	if thorough {
-		statelessSets = [][]int{{0, 1, 6, 9}, {2, 3, 4, 10}, {5, 7, 8, 11}, {0, 1, 2, 8}, {0, 6, 9, 11}, {1, 4, 8, 10}, {0, 11, 13, 9}, {12, 14, 1, 6}, {0, 21, 13, 14}, {15, 16, 17, 13}, {18, 19, 0, 9}, {20, 0, 6, 13}, {22, 23, 24, 0}, {25, 0, 1, 6}}
+		statelessSets = [][]int{{0, 1, 6, 9}, {2, 3, 4, 10}, {5, 7, 8, 11}, {0, 1, 2, 8}, {0, 6, 9, 11}, {1, 4, 8, 10}, {0, 11, 13, 9}, {12, 14, 1, 6}, {0, 21, 13, 14}, {15, 16, 17, 13}, {18, 19, 0, 9}, {20, 0, 6, 13}, {22, 23, 24, 0}, {25, 0, 1, 6}, {26, 0, 6, 9}}
 	} else {
-		statelessSets = [][]int{sets[0], sets[1], sets[4], sets[5], sets[7], sets[8], sets[9], sets[10], sets[11]}
+		statelessSets = [][]int{sets[0], sets[1], sets[4], sets[5], sets[7], sets[8], sets[9], sets[10], sets[11], sets[12]}
 	}
 
 	// stateless: case = (set, first two ops); inner = all continuations
